@@ -83,15 +83,26 @@ func rectNormalOK(min, max, p, n v3, tol float64) (bool, string) {
 	for i := 0; i < 3; i++ {
 		var e [3]float64
 		e[i] = -1
-		if near(pa[i], lo[i], tol) && na == e {
+		if near(pa[i], lo[i], tol) && nearArr(na, e) {
 			return true, ""
 		}
 		e[i] = 1
-		if near(pa[i], hi[i], tol) && na == e {
+		if near(pa[i], hi[i], tol) && nearArr(na, e) {
 			return true, ""
 		}
 	}
 	return false, fmt.Sprintf("normal=%v is not the outward axis of a face through %v", n, p)
+}
+
+// nearArr: equal up to the rounding of a rotation applied to an axis vector (exactly equal for
+// the untransformed Rect, whose normals are exact axis vectors).
+func nearArr(a, b [3]float64) bool {
+	for i := range a {
+		if math.Abs(a[i]-b[i]) > 1e-9 {
+			return false
+		}
+	}
+	return true
 }
 
 func mkRect(c *hlib.Ctx) *shape3 {
